@@ -464,6 +464,11 @@ def check(run: Run) -> None:
         from . import c06 as c06__
         R.share(run, "C09.o", c06__, ["C06.a"])
 
+    with run.obligation("C09.p", "K1+K4", "an output-less sub-graph called twice through nested_ runs twice (as it does inlined): the deferred-builder add_node used by nested_ / "
+                        "try_except_ / map_ / mesh_ interns a node only when it HAS an output, exactly like the ordinary overload (shared with C06.b)"):
+        from . import c06 as c06_b
+        R.share(run, "C09.p", c06_b, ["C06.b"])
+
 
 def HDRX(cn, tail):
     return "graph_header(graph_context(context),graph.data())." + tail
